@@ -428,6 +428,9 @@ func DischargeAll(results []*FuncResult, want func(*Obligation) bool, opt Discha
 			if want != nil && !want(o) {
 				continue
 			}
+			if o.Decided {
+				continue
+			}
 			if o.Trivial && !o.ExpectSat {
 				st := "unsat"
 				o.Result = &SolverResult{Status: st, Solver: "syntactic"}
